@@ -98,7 +98,8 @@ def cases(tier, cfg, seed):
         for n in (1, 2, 3, 4):
             for st in STRATS:
                 if 'Piv' in st and n > (2 if (tier == 'quick' and st != 'SimpleInvPiv') else 3): continue
-                if tier == 'quick' and n == 4 and st in ('BlockLU', 'SimpleLU') and T == 'float': continue
+                if tier == 'quick' and n == 4 and st in ('BlockLU', 'SimpleLU'): continue        # LU-based n = 4: most entries stay unknown within the quick cap (thorough tier attempts them)
+                if tier == 'quick' and n == 3 and st == 'SimpleInvPiv' and cfg.isa != 'avx2': continue
                 if tier == 'quick' and T == 'float' and st not in ('SimpleInv',): continue
                 out.append(Inv(T, n, st))
             out.append(Inv(T, n, 'SimpleInv', 'lazy')); out.append(Inv(T, n, 'SimpleInv', 'default'))
